@@ -3,7 +3,7 @@
 set -u
 patch="$1"; shift
 if ! git -C /repo diff --quiet; then echo "refusing: /repo working tree is dirty" >&2; exit 3; fi
-git -C /repo apply --unidiff-zero "$patch" || { echo "patch does not apply" >&2; exit 3; }
+git -C /repo apply "$patch" 2>/dev/null || git -C /repo apply --unidiff-zero "$patch" || { echo "patch does not apply" >&2; exit 3; }
 "$@"; rc=$?
 git -C /repo checkout -- . ; git -C /repo status --short | grep -v '^??' >&2
 exit $rc
